@@ -8,7 +8,8 @@ SPEC = {
         "maybeIndef_preserves_partial", "kvp_preserves_partial", "full_pres_containers_fails_at_witness",
         "tagwrap_roundtrip", "cborwrap_roundtrip", "zeroOrOne_roundtrip", "set_roundtrip",
         "orderPreservingProperties_roundtrip", "emptyMap_roundtrip", "anycbor_captures_one_item", "skip_never_diverges",
-        "byDatatype_dispatch_single", "byDatatype_dispatch_many",
+        "byDatatype_dispatch_single", "byDatatype_dispatch_many", "codec_by_datatype_enum_roundtrip",
+        "bytes_roundtrip", "int_roundtrip", "positiveCoin_roundtrip", "nonZeroInt_roundtrip",
     ],
     "streams": [
         {"name": "minicbor", "quick": 1500, "thorough": 150000},
